@@ -64,6 +64,16 @@ func genDag(t *rapid.T) sim.Case {
 		}
 		c.Steps[i].RetryIvUS = 0
 	}
+	if rapid.IntRange(0, 3).Draw(t, "slowRetry") == 0 {
+		// one retried step waits a full second before its next attempt: the
+		// attempts' timestamps (persisted with a resolution of one second) differ
+		for i := range c.Steps {
+			if c.Steps[i].RetryLimit >= 1 && c.Steps[i].FailFirst != 0 {
+				c.Steps[i].RetryIvUS = 1000000
+				break
+			}
+		}
+	}
 	if len(c.Sched) > 6 {
 		c.Sched = c.Sched[:6]
 	}
